@@ -60,7 +60,7 @@ def case_strategy(draw):
     used_ports, used_ipc, ids = set(), set(), []
     filters = []
     for i, nm in enumerate(names):
-        ident = draw(st.sampled_from([None, None, f'id{i}', f'cam_{i}', f'f{i}x']))
+        ident = draw(st.sampled_from([None, None, None, f'id{i}', f'cam_{i}', f'f{i}x', 'VideoIn', 'Util', 'Util1', 'Util2', 'Filter1', 'Webvis']))
         ids.append(ident)
         filters.append({'name': nm, 'id': ident, 'eq': draw(st.booleans()), 'empty_form': draw(st.sampled_from(['bare', 'eq']))})
     has_default_user_port = False
@@ -199,9 +199,19 @@ def run_case(case):
     # '--sources=' / '--outputs=' with nothing after '=' is "no value provided": the option is ignored, i.e. as if absent
     filters = [{k: v for k, v in f.items() if not (k in ('sources', 'outputs') and v == [] and f.get('empty_form') == 'eq')} for f in filters]
     ids = auto_ids(filters)
-    if len(set(ids)) != len(ids):
-        return excluded('user ids collide with generated ids')
     args = build_args(case, ids)   # rendered from the original case (keeps the '--x=' spellings)
+    if len(set(ids)) != len(ids):
+        # a user id equal to an id the CLI generates for another filter: the only well-formed outcomes are a refusal or unique ids
+        try:
+            res = common.parse_filters(list(reversed(args)), case['ipc'])
+        except ValueError:
+            return ok(len(filters) >= 2, ['id collision rejected'], {'cmd': ' '.join(args)})
+        except Exception as e:
+            return bad(f'parse_filters raised {type(e).__name__}: {e} for {" ".join(args)!r}', f'raises:{type(e).__name__}')
+        got = [c.get('id') for _, c, _ in res]
+        if len(set(got)) != len(got):
+            return bad(f'two filters ended up with the same id {got}: {" ".join(args)}', 'ids-duplicate')
+        return ok(False, ['id collision resolved'], None)
     try:
         res = common.parse_filters(list(reversed(args)), case['ipc'])
     except Exception as e:
